@@ -1,9 +1,25 @@
 /-
-Driver for C02: per case the harness reports, for every forced planner strategy, the set of answer
-classes seen over breadth limits {1,3,25}, repeats and 8 concurrent identical requests.  All of them
-must be one class and equal to the reference oracle (sound by `C01.oracle_sound`).
+Driver for C02.
+
+(1) Agreement (the property): per case the harness reports, for every forced planner strategy, the set of
+answer classes seen over breadth limits {1,3,25}, repeats and 8 concurrent identical requests.  All of
+them must be one class (and are compared with the reference oracle, sound by `C01.oracle_sound`).  A
+disagreement is diagnosed with the models: F9 (weight-two de-duplicates before the condition filter), S1 /
+S2 (the recursive strategy follows userset tuples of other relations / parents of other types), F2
+(schedule-dependent cycle flag).
+
+(2) Exact correspondence of the strategy models: at breadth limit 1 with the strategy forced
+(`b1weight2:` / `b1recursive:` fields, full outcome incl. the error kind) the real engine must produce an
+outcome of `CheckPlan.checkP` — the default engine's expression with every planned handler evaluated by
+`Model/Weight2.lean` (stream level: the batches really go through `fastPathUnion/Intersection/Difference`)
+or `Model/RecursiveV1.lean`.
+
+(3) Applicability: whenever the real typesystem offers the weight-two strategy (`w2:` / `tw2:` keys dumped
+from `UsersetUseWeight2Resolver` / `TTUUseWeight2Resolver`) every relation the fast path would walk must be
+weight one for the subject's type (`Weight2.w1Rel`, the hypothesis of `weight2_sem`).
 -/
 import OpenFGAVerif.Driver.FgaCase
+import OpenFGAVerif.Model.CheckPlan
 
 open OpenFGAVerif OpenFGAVerif.Proto OpenFGAVerif.Vocab OpenFGAVerif.CheckV1 OpenFGAVerif.Dfs OpenFGAVerif.FgaCase
 
@@ -26,6 +42,42 @@ def parseImpl (impl : String) : List (String × List String) :=
     | [k, v] => some (k, (v.splitOn "|").filter (· ≠ ""))
     | _ => none)
 
+/-- outcome token as the harness prints it: T | F | Edepth | Econd | E… -/
+def tok : Out → String
+  | .ok true _ _ => "T"
+  | .ok false _ _ => "F"
+  | .err .depth => "Edepth"
+  | .err .cond => "Econd"
+  | .err .shape => "Eother"
+  | .err .abort => "Eabort"
+
+def modelToks (w : World) (pc : CheckPlan.Cfg) : List String :=
+  ((CheckPlan.checkP w pc ++ CheckPlan.checkP w { pc with pessimistic := true }).map tok).eraseDups
+
+/-- the decisions (T/F) among tokens -/
+def decisions (l : List String) : List String := l.filter (fun x => x = "T" || x = "F")
+
+/-- relations the weight-two fast path would walk for a key the typesystem declared applicable, that are
+not weight one -/
+def badApplicability (w : World) : List String :=
+  w.aux.filterMap (fun kv =>
+    if !kv.2 then none else
+    match kv.1.splitOn ":" with
+    | ["w2", _, ur] =>
+      (match ur.splitOn "#" with
+       | [ut, urel] => if Weight2.w1Rel w ut urel then none else some kv.1
+       | _ => none)
+    | ["tw2", node, ts, cr] =>
+      (match node.splitOn "#" with
+       | [typ, _] =>
+         (match w.model.findRel typ ts with
+          | none => none
+          | some rd =>
+            if rd.restrs.all (fun p => (w.model.findRel p.typ cr).isNone || Weight2.w1Rel w p.typ cr) then none
+            else some kv.1)
+       | _ => none)
+    | _ => none)
+
 def step (c impl : String) : String :=
   match parseCase c with
   | none => "SKIP unparsable-case"
@@ -33,7 +85,7 @@ def step (c impl : String) : String :=
     if impl = "invalid-model" then "SKIP invalid-model" else
     let w := { cs.world with ctxTuples := sortByObj cs.world.ctxTuples }
     let kv := parseImpl impl
-    let strategies := kv.filter (fun p => p.1 ≠ "offered")
+    let strategies := kv.filter (fun p => p.1 = "default" || p.1 = "weight2" || p.1 = "recursive")
     let offered := ((kv.find? (·.1 = "offered")).map (·.2)).getD []
     let offeredL := (offered.flatMap (fun s => s.splitOn ",")).filter (· ≠ "")
     let allClasses := (strategies.flatMap (·.2)).eraseDups
@@ -41,7 +93,30 @@ def step (c impl : String) : String :=
     let o := if cs.stratified then oracleClass w else "?"
     let nt := offeredL.length > 1
     let tag := if offeredL.length > 1 then "planned-" ++ "+".intercalate offeredL else "single-strategy"
-    -- 1. all strategies, breadths, repeats, concurrent runs: one class
+    -- (3) applicability
+    match badApplicability w with
+    | k :: _ =>
+      specViol s!"the typesystem offers the weight-two strategy where a walked relation is not weight one for the subject's type: {k}"
+    | [] =>
+    -- (2) exact correspondence of the strategy models at breadth limit 1
+    let pcOf := fun (s : String) => ({ want := s, maxDepth := cs.maxDepth } : CheckPlan.Cfg)
+    let b1 := fun (s : String) => ((kv.find? (·.1 = "b1" ++ s)).map (·.2)).getD []
+    let mW := modelToks w (pcOf "weight2")
+    let mR := modelToks w (pcOf "recursive")
+    let mWrep := fun (_ : Unit) => modelToks w { pcOf "weight2" with w2 := { order := .repaired } }
+    let mRrepU := fun (_ : Unit) => modelToks w { pcOf "recursive" with strictU := .repaired }
+    let mRrepT := fun (_ : Unit) => modelToks w { pcOf "recursive" with strictT := .repaired }
+    let diffW := (b1 "weight2").filter (fun x => !mW.contains x)
+    let diffR := (b1 "recursive").filter (fun x => !mR.contains x)
+    let f9 := f9Shape w
+    -- the unstable sort of the datastore may order the two tuples of an F9 object either way
+    let diffW' := if f9 && !diffW.isEmpty then diffW.filter (fun x => !(mWrep ()).contains x) else diffW
+    if !diffW'.isEmpty then
+      modelDiff s!"weight2@breadth1 model={"|".intercalate mW} impl={"|".intercalate (b1 "weight2")}"
+    else if !diffR.isEmpty then
+      modelDiff s!"recursive@breadth1 model={"|".intercalate mR} impl={"|".intercalate (b1 "recursive")}"
+    else
+    -- (1) all strategies, breadths, repeats, concurrent runs: one class
     match allClasses with
     | [cl] =>
       if (o = "T" && cl = "F") || (o = "F" && cl = "T") || (o = "U" && (cl = "T" || cl = "F")) then
@@ -50,17 +125,24 @@ def step (c impl : String) : String :=
       else ok (tag ++ "-agree-" ++ cl) nt
     | _ =>
       let detail := " ".intercalate (strategies.map (fun p => p.1 ++ "=" ++ "|".intercalate p.2))
-      let decisions := allClasses.filter (fun x => x = "T" || x = "F")
-      if decisions.length ≤ 1 then
-        -- only decision vs error differs: an error is not an answer; report as a weaker finding class
-        -- an error is not a decision: one strategy fails (e.g. the weight-two fast path reads conditional
-        -- tuples of unrelated objects) where another decides.  Counted, not a violation of C02.
+      let decs := allClasses.filter (fun x => x = "T" || x = "F")
+      if decs.length ≤ 1 then
+        -- only decision vs error differs: an error is not an answer (e.g. the weight-two fast path reads
+        -- conditional tuples of unrelated objects and fails where another strategy decides).  Counted.
         ok (tag ++ "-error-vs-decision-oracle-" ++ o) nt
       else
+        let get := fun (s : String) => ((strategies.find? (·.1 = s)).map (·.2)).getD []
         let diag :=
-          if f9Shape w && (strategies.any (fun p => p.1 = "weight2" && p.2 ≠ ((strategies.find? (·.1 = "default")).map (·.2)).getD []))
-          then "F9 weight-two fast path de-duplicates by object before the condition filter"
-          else if strategies.any (fun p => p.2.length > 1) then "F2 identical requests under one strategy disagree (schedule-dependent cycle flag)"
+          if decisions (get "recursive") ≠ decisions (get "default") && decisions mR ≠ decisions (mRrepU ()) then
+            "S1 recursive userset strategy ignores the relation of userset tuples"
+          else if decisions (get "recursive") ≠ decisions (get "default") && decisions mR ≠ decisions (mRrepT ()) then
+            "S2 recursive TTU strategy follows parents of another type"
+          else if f9 && get "weight2" ≠ get "default" then
+            "F9 weight-two fast path de-duplicates by object before the condition filter"
+          else if decisions (get "weight2") ≠ decisions (get "default") && decisions mW ≠ decisions (mWrep ()) then
+            "F9 weight-two fast path de-duplicates by object before the condition filter"
+          else if strategies.any (fun p => p.2.length > 1) then
+            "F2 identical requests under one strategy disagree (schedule-dependent cycle flag)"
           else "unexplained"
         specViol s!"answers depend on strategy/tuning: {detail} oracle={o}: {diag}"
 
